@@ -56,6 +56,26 @@ COMBOS = [
      "on top of the slice delegation: VecDeque traces only the front slice of as_slices()",
      [("src/collect_impl.rs", "        let (front, back) = self.as_slices();\n        <[T] as Collect<'gc>>::trace(front, cc);\n        <[T] as Collect<'gc>>::trace(back, cc);",
        "        let (front, _back) = self.as_slices();\n        <[T] as Collect<'gc>>::trace(front, cc);")]),
+    ("C01-header-ctor-flag-from-needs-drop", "R11-03-header-init-flags", "C01", "allocation-sets-needs-trace",
+     "on top of the header constructor taking the needs-trace flag: GcPtr::alloc passes needs_drop::<T>() instead of "
+     "T::NEEDS_TRACE (a Copy type holding a Gc is never traced)",
+     [("src/gc_ptr.rs", "                &VtableFor::<T, TM, P>::VTABLE,\n                T::NEEDS_TRACE,\n", "                &VtableFor::<T, TM, P>::VTABLE,\n                core::mem::needs_drop::<T>(),\n")]),
+    ("C09-has-debt-ignores-credits", "R11-02-has-debt-fast-path", "C09", "debt-predicate-equivalence",
+     "on top of the has_debt fast path: the predicate answers from the debits alone (work done in the cycle never pays "
+     "debt, so collect_debt runs to the end of the cycle whenever the wake-up threshold has been passed)",
+     [("src/metrics.rs", "            Some(cycle_debits) => cycle_debits - self.cycle_credits() > 0.0,\n", "            Some(cycle_debits) => cycle_debits > 0.0,\n")]),
+    ("C16-trace-slice-helper-back-half-dropped", "R11-05-trace-contiguous-slices", "C16", "trace-coverage",
+     "on top of the shared trace_slice loop: VecDeque hands only the front half of as_slices() to it (a ring buffer that "
+     "has wrapped keeps pointers the collector never sees)",
+     [("src/collect_impl.rs", "        trace_slice(front, cc);\n        trace_slice(back, cc);\n", "        let _ = back;\n        trace_slice(front, cc);\n")]),
+    ("C18-needs-drop-guard-looks-at-header-only", "R11-07-slice-builder-shortcuts", "C18", "slice-builder:destruct-then-release",
+     "on top of the needs_drop shortcut in the slice builder's Drop: the guard asks needs_drop::<H>() only, so written "
+     "elements with destructors are leaked (never destructed) whenever the header type is plain data",
+     [("src/slice.rs", "            if mem::needs_drop::<SliceWithHeader<H, E>>() {\n", "            if mem::needs_drop::<H>() {\n")]),
+    ("C07-white-bit-test-misses-white-weak", "R11-04-white-bit-test", "C07", "resurrect-table",
+     "on top of the single-bit whiteness test: is_white compares both colour bits with zero, so a WhiteWeak object "
+     "is not recognised as dead (resurrect leaves it dead, the barrier does not re-gray for it)",
+     [("src/gc_ptr.rs", "tagged_ptr::get::<NON_WHITE_BIT, _>(self.tagged_vtable.get()) == 0", "tagged_ptr::get::<0x3, _>(self.tagged_vtable.get()) == 0")]),
 ]
 
 
